@@ -8,10 +8,21 @@ the caller flattens the result back in logical (C) order, so the evaluator of th
 import numpy as np
 
 
+def unslab(out, lay):
+    """drop the rows of the extra NaN slab from the result"""
+    if lay and lay.get("nan_slab"):
+        return np.asarray(out)[:-1]
+    return out
+
+
 def relayout(a, lay):
     if not lay:
         return a
     x = a.reshape(lay["shape"]) if lay.get("shape") else a
+    if lay.get("nan_slab"):
+        # the batch inside a larger batch: one more slab of spectra WITHOUT directional information (NaN moments,
+        # as in bins without energy); what the others get may not depend on their neighbours in the batch
+        x = np.concatenate([x, np.full((1,) + x.shape[1:], np.nan)], axis=0)
     o = lay.get("order", "C")
     if o == "F":
         x = np.asfortranarray(x)
